@@ -6,12 +6,16 @@ from ..symx import run_paths
 from ..lin import Form
 
 MANIFEST = {
-    'technique': 'argument-purity (effect) analysis of every kernel reachable from the model objects, mutating-callee => caller-passes-a-copy rule, gather/scatter summaries of the two UNIFAC kernels, result provenance of __call__ and of the ideal decorator',
-    'text': 'Decides for every input: no kernel reachable from an activity-coefficient model stores through its composition parameter; the one kernel '
-            'that mutates an array parameter (psi of modified UNIFAC) is only ever called with a fresh copy; both UNIFAC kernels gather the '
-            'sub-composition x_sub[i] <- x[index[i]], scatter gamma[index[i]] <- gamma_sub[i] and default to ones; the model object returns '
-            'f(x, T, *args) so the functional form used by the flash solvers is the one the object evaluates; the ideal models return 1. '
-            'gamma -> 1, Gibbs-Duhem and permutation invariance are numerical and not decided.',
+    'technique': 'argument-purity (effect) analysis of every kernel reachable from the model objects, mutating-callee => caller-passes-a-copy rule, gather/scatter '
+            'summaries of the two UNIFAC kernels, result provenance of __call__ and of the ideal decorator; definite-assignment dataflow over the CFG of every '
+            'function of the module; coefficient-pairing rule on the symbolic form of the combinatorial terms',
+    'text': 'Decides for every input: no kernel reachable from an activity-coefficient model stores through its composition parameter; the one kernel that mutates '
+            'an array parameter (psi of modified UNIFAC) is only ever called with a fresh copy; both UNIFAC kernels gather the sub-composition x_sub[i] <- '
+            'x[index[i]], scatter gamma[index[i]] <- gamma_sub[i] and default to ones; the model object returns f(x, T, *args) so the functional form used by the '
+            'flash solvers is the one the object evaluates; the ideal models return 1; every local of every function in the module is assigned on all paths before '
+            'it is read (an unassigned read in a numba kernel is a crash at the vertex of a group-less chemical); in the combinatorial terms every c*ln(R) is '
+            'paired with -c*R, a necessary condition of the Gibbs-Duhem relation. gamma -> 1, Gibbs-Duhem for the residual part and permutation invariance are '
+            'numerical and not decided.',
 }
 
 AC = 'thermosteam/equilibrium/activity_coefficients.py'
@@ -80,11 +84,21 @@ def run(ctx):
         'D3 gather/scatter summaries of gamma_UNIFAC and gamma_modified_UNIFAC',
         'D4 __call__ returns f(x, T, *args); ideal f returns 1.0',
     ]
-    ctx.not_decided = ['gamma -> 1 in the pure limit', 'Gibbs-Duhem consistency', 'permutation invariance', 'numerical values']
+    ctx.decided += [
+        'D5 in every function of the activity-coefficient module each local is assigned on every path before it is read (under numba an unassigned read is '
+        'undefined behaviour: the vertex of a group-less chemical crashed the interpreter)',
+        'D6 in the combinatorial parts every logarithmic term c*ln(R) is accompanied by -c*R: with R_i = a_i/sum_j x_j a_j (and ratios of two such), '
+        'sum_i x_i d(-R_i + ln R_i) = 0, and any other coefficient pair leaves a non-zero Gibbs-Duhem residual',
+    ]
+    ctx.not_decided = ['gamma -> 1 in the pure limit', 'Gibbs-Duhem consistency of the residual (group) part', 'permutation invariance', 'numerical values']
     d1 = ctx.rule('D1', 'composition parameter is never written', floor=8)
     d2 = ctx.rule('D2', 'mutating callee => caller passes a copy', floor=2)
     d3 = ctx.rule('D3', 'gather / scatter summaries', floor=6)
     d4 = ctx.rule('D4', 'result provenance', floor=3)
+    d5 = ctx.rule('D5', 'every local of a kernel is assigned on every path before it is read', floor=8)
+    d6 = ctx.rule('D6', 'combinatorial term: every c*ln(R) is paired with -c*R (necessary for Gibbs-Duhem)', floor=4)
+    definite_assignment(ctx, d5)
+    gibbs_duhem_pairing(ctx, d6)
     m = prog.module(AC)
     summaries = {}
     for k in KERNELS:
@@ -234,3 +248,83 @@ def run(ctx):
         d4.ok('ideal', 'decorator installs f = ideal coefficient and args = ()', dec)
     else:
         d4.fail('ideal', 'decorator', 'the ideal decorator does not install f and args', dec, dec.node)
+
+
+def definite_assignment(ctx, d5):
+    from ..generic import possibly_unassigned
+    m = ctx.prog.module(AC)
+    fs = list(m.functions.values())
+    for c in m.classes.values():
+        fs += [f for f in list(c.methods.values()) + list(c.setters.values()) if f.cls is c]
+    seen = set()
+    for f in fs:
+        if id(f) in seen:
+            continue
+        seen.add(id(f))
+        hits = possibly_unassigned(f)
+        if not hits:
+            d5.ok(f.qualname, 'every local is assigned before it is read on all paths', f)
+            continue
+        done = set()
+        for name, x, nd in hits:
+            if name in done:
+                continue
+            done.add(name)
+            jit = any('jit' in src(d) for d in f.node.decorator_list)
+            d5.fail(f.qualname, 'unassigned-read', 'a path reaches the read of a local that was never assigned on it (a value computed only under a condition is used '
+                    'unconditionally)%s' % ('; the function is compiled by numba, where this is undefined behaviour (crash), not an UnboundLocalError' if jit else ''),
+                    f, x)
+
+
+def gibbs_duhem_pairing(ctx, d6):
+    prog = ctx.prog
+    m = prog.module(AC)
+    # the combinatorial functions: module functions whose result is handed to group_activity_coefficients as `loggammacs`
+    gac = m.functions.get('group_activity_coefficients')
+    if gac is None:
+        raise AnalysisError('group_activity_coefficients not found')
+    pos = 2          # x, chemgroups, loggammacs
+    names = set()
+    for f in m.functions.values():
+        for n in walk_no_nested(f.node):
+            if isinstance(n, ast.Call) and src(n.func) == 'group_activity_coefficients' and len(n.args) > pos \
+                    and isinstance(n.args[pos], ast.Call) and isinstance(n.args[pos].func, ast.Name):
+                names.add(n.args[pos].func.id)
+    if len(names) < 2:
+        raise AnalysisError('combinatorial functions not found: %s' % sorted(names))
+    for name in sorted(names):
+        f = m.functions[name]
+        logs = {}
+
+        def hook(node, lin, logs=logs):
+            fn = src(node.func)
+            if fn in ('np.log', 'log', 'math.log', 'numpy.log') and len(node.args) == 1:
+                arg = lin.form(node.args[0])
+                key = 'LOG<%s>' % arg.pretty()
+                logs[key] = arg
+                return Form.atom(key)
+            return None
+        ps, _ = run_paths(f.node, call_hook=hook)
+        ps = [p for p in ps if not p.raised and p.ret is not None]
+        if not ps or not logs:
+            raise AnalysisError('%s: no logarithmic terms found' % name)
+        for p in ps:
+            ret = p.ret
+            for k, c in list(ret.t.items()):
+                ls = [(a, e) for a, e in k if a in logs]
+                if not ls:
+                    continue
+                if len(ls) != 1 or ls[0][1] != 1:
+                    d6.fail(name, 'log-shape', 'a term contains a power or product of logarithms: %s' % (k,), f, p.ret_node)
+                    continue
+                L = ls[0][0]
+                R = logs[L]
+                rest = Form({tuple(x for x in k if x[0] != L): c})
+                want = -(rest * R)
+                okk = all(ret.t.get(k2) == c2 for k2, c2 in want.t.items())
+                if okk:
+                    d6.ok(name, 'the term %s*ln(%s) is paired with its linear partner (coefficients opposite)' % (rest.pretty(), R.pretty()), f, p.ret_node)
+                else:
+                    got = Form({k2: ret.t.get(k2, 0) for k2 in want.t})
+                    d6.fail(name, 'gibbs-duhem-pairing', 'the combinatorial term has %s*ln(R) with R = %s but its linear partner is %s instead of %s: '
+                            'sum_i x_i dln(gamma_i) does not vanish' % (rest.pretty(), R.pretty(), got.pretty(), want.pretty()), f, p.ret_node)
